@@ -55,11 +55,14 @@ check(
 check(
     "C13",
     "stateless DFS over schedules (prefix replay) of caller start/cancel, invocation completion "
-    "and expiry on the real async cache",
+    "and expiry on the real async cache, plus explicit-state breadth-first search over canonical states run to a FIXPOINT "
+    "for at most K concurrently active callers",
     "Every interleaving of the environment actions (incl. two events in one loop iteration) for "
-    "2-4 callers over 1-2 keys (5 callers over 3 keys in one sub-family) is executed on the real code; single-flight, isolation of "
-    "cancellation and delivery are checked against a reference model on each.",
-    "asyncio FIFO callback order inside one loop iteration; callers started in index order.",
+    "2-4 callers over 1-2 keys (5 callers over 3 keys in one sub-family; 4-9 (17) waiters on one invocation) is executed on the real code; single-flight, isolation of "
+    "cancellation and delivery are checked against a reference model on each. The fixpoint searches "
+    "(evidence.coverage.fixpoint_searches) cover start / complete / cancel / clock histories of EVERY length with at most K = 2, 3 (4) "
+    "callers active and K + 1 invocations in flight, the oracle evaluated online, every merge validated differentially.",
+    "asyncio FIFO callback order inside one loop iteration; callers started in index order; the fixpoint family bounds the number of active callers / in-flight invocations.",
     "3/C13",
 )
 check(
@@ -130,8 +133,9 @@ check(
     "+ task group",
     "All interleavings for up to k spawned tasks (incl. grandchild, spawn via nested sync scope "
     "/ update) and all body outcomes; all-done-at-exit, termination and "
-    "no-waiting-after-failure checked on each.",
-    "tasks do not swallow cancellation; asyncio FIFO callback order.",
+    "no-waiting-after-failure checked on each (for every block of nested chains of 4-8 scopes). 4-12 blocked tasks in one scope are "
+    "explored with a stated bound of 2 (3) non-default scheduling choices.",
+    "tasks do not swallow cancellation; asyncio FIFO callback order; the many-tasks family is deviation-bounded (evidence.coverage.declared_deviation_bound).",
     "3/C06",
 )
 check(
